@@ -17,7 +17,7 @@ import tempfile
 import vlib
 from vlib import hx
 
-SCRATCH_ROOT = os.environ.get("VERIF_SCRATCH", "/tmp/verif-scratch")
+SCRATCH_ROOT = os.environ.get("VERIF_SCRATCH", "/tmp/verif-scratch/%d" % os.getpid())
 
 
 class Timeout(Exception):
